@@ -7,6 +7,12 @@ submitter-level detection both occur along one chain.
 """
 
 
+def fail_rc(rng):
+    """a failing exit status: usually 1..255, sometimes a negative Popen.returncode (the process died from a signal:
+    OOM kill -9, SIGTERM -15, SIGSEGV -11)"""
+    return rng.randint(1, 255) if rng.random() < .75 else rng.choice([-9, -15, -11])
+
+
 def cancel_chain(rng):
     depth = rng.choice([2, 3, 3, 4, 5])
     width = rng.choice([1, 1, 2])
@@ -40,6 +46,6 @@ def cancel_chain(rng):
     for k in range(n):
         jobs.append({"id": perm[k], "group": 0, "est": 10, "blockers": sorted(perm[b] for b in blockers[k]),
                      "cancel": (rng.random() < flagp) if k != 0 else rng.random() < .5,
-                     "rc": (rng.randint(1, 255) if root_fails else 0) if k == 0 else (0 if rng.random() < .85 else rng.randint(1, 255))})
+                     "rc": (fail_rc(rng) if root_fails else 0) if k == 0 else (0 if rng.random() < .85 else fail_rc(rng))})
     jobs.sort(key=lambda j: j["id"])
     return {"jobs": jobs, "groups": groups, "maxNodes": rng.choice([1, 1, 2, None]), "cpus": rng.choice([1, 2])}
